@@ -5,6 +5,7 @@ Field-write discipline (A9) on stream::TransferControlInner plus guard (A6) and 
 """
 from analysis.guards import facts_at, field_writes
 from analysis.sym import Sym, render, const_val, is_call, walk
+from analysis.mir import op_place
 from rules.common import (site, has_cmp, cmp_facts, option_fact, disjunct_facts, blocks_assigning_variant, texts)
 
 INNER = "stream::TransferControlInner"
@@ -128,7 +129,7 @@ def run(facts, R):
             evs = [(x["bb"], x["idx"]) for x in stores if x["body"] is b and x["kind"] == "store"
                    and const_val(Sym(b).rvalue(x["rv"])) == 0]
             w_path = must_cross(b, [(w["bb"], w["idx"])], return_points(b), evs)
-            before = any(b.dominates(x[0], w["bb"]) and (x[0] != w["bb"] or x[1] < w["idx"]) for x in evs)
+            before = any(b.dominates(x[0], w["bb"]) and (x[0] != w["bb"] or x[1] <= w["idx"]) for x in evs)     # (<=: one whole-value store sets both)
             R.check(w_path is None or before, "sent-monotone", fn, "sent_offset=0 paired with acked_offset=0",
                     "sent_offset is reset to 0 on a path that leaves acked_offset non-zero (acked > sent)", w["span"],
                     "reset paired with acked_offset reset", path=w_path)
@@ -142,10 +143,38 @@ def run(facts, R):
     # ---------------- cancelled ----------------------------------------------------------------
     c_writes = field_writes(facts, INNER, "cancelled")
     n_c = 0
+    # carried over unchanged: `let c = g.cancelled.take(); *g = Inner { cancelled: c, .. }` (or a clone / copy of the field stored
+    # back into the same object) leaves the flag as it was - neither a new store nor an escaping borrow
+    carried = set()
+    for w in c_writes:
+        if w["kind"] != "store":
+            continue
+        b = w["body"]
+        sym = Sym(b)
+        v = _store_value(b, sym, w)
+        src = None
+        if v[0] == "call" and v[1].rsplit("::", 1)[-1] in ("take", "clone") and v[2] and _is_f(v[2][0], "cancelled"):
+            src = v
+        elif _is_f(v, "cancelled"):
+            src = v
+        if src is None:
+            continue
+        # same object: the store's base and the source's base are the same guard value
+        carried.add((b.path, w["bb"], w["idx"]))
+        if v[0] == "call" and len(v) > 3:
+            carried.add((b.path, "borrow-for-call", v[3]))
     for w in c_writes:
         b = w["body"]
         sym = Sym(b)
         fn = b.path
+        if (b.path, w["bb"], w["idx"]) in carried:
+            R.ok("cancel-sticky", fn, "cancelled carried over unchanged", w["span"], "value is the field's own previous content")
+            continue
+        if w["kind"] == "mut-borrow" and not w["dest"]["p"]:
+            # the `&mut g.cancelled` handed to the take() whose result is stored back
+            uses = [i for i, t in b.calls() if any(op_place(a) is not None and op_place(a)["l"] == w["dest"]["l"] for a in t["args"])]
+            if uses and all((b.path, "borrow-for-call", i) in carried for i in uses):
+                continue
         if w["kind"] == "mut-borrow":
             R.bad("cancel-sticky", fn, "cancelled:mut-borrow",
                   "`cancelled` is mutably borrowed (take/replace/insert would break stickiness)", w["span"])
